@@ -104,6 +104,21 @@ def check_const(case):
             fails.append(fail('kG0 not homogeneous in the load triple', sig=None, cfg=cfg, triple=tri))
         if pan.worst(K4, K + K3, S + So, 10 * RTOL)[0] > 1:
             fails.append(fail('kG0 not additive in the load triple', sig=None, cfg=cfg, triple=tri, other=other))
+    # edge: re-used Panel object whose definition is changed between two evaluations == freshly defined object
+    nb, q = pan.neighbour(lp, COORDS, case['lp'])
+    if nb is not None and cfg['finalize'] and not fails:
+        cfg_nb = c02.expand(dict(nb, lam='general', offset='0', preload=0), case['seed'])
+        p2 = pan.make_panel(cfg_nb)
+        p2.Nxx, p2.Nyy, p2.Nxy = tri
+        s2 = pan.placement(cfg_nb, (1 if cfg_nb['model'] == 'plate_w' else 3) * cfg_nb['m'] * cfg_nb['n'])
+        p2.calc_kG0(size=s2[0], row0=s2[1], col0=s2[2], silent=True)
+        pan.retarget(p2, cfg)
+        Kre = pan.dense(p2.calc_kG0(size=size, row0=r0, col0=c0, silent=True))
+        execs += 2
+        trans += 1
+        if pan.worst(Kre, K, S, RTOL)[0] > 1:
+            fails.append(fail('kG0 of a re-used Panel object whose definition was changed differs from that of a freshly defined panel',
+                              sig=None, cfg=cfg, changed=q))
     return dict(fails=fails, execs=execs, transitions=trans + len(case['lp']), max_ratio=ratio, nontrivial=1)
 
 
